@@ -10,6 +10,31 @@ PLAN = {
 }
 
 
+KERNEL_TRUST = ["kernel preconditions (validity of offsets/starts/stops/parents/indexes, lengths >= 0) are those written in contracts/*.py; the C++ class methods and the Python layer that compose these kernels (Content::getitem/reduce/..., structure.py, _util.py) are glue outside the contracts: a change there is invisible to this check"]
+
+PLAN["C01"] = {"kernels": [r"getitem", r"regularize", r"slicearray", r"jagged", r"SliceJagged", r"SliceMissing", r"slicemissing",
+                           r"missing_repeat", r"SliceVarNewAxis", r"carry_arange"],
+               "functions": ["awkward_regularize_rangeslice"],
+               "kinds": ["S", "E", "F"], "trusted": KERNEL_TRUST}
+PLAN["C02"] = {"kernels": [r"compact_offsets", r"broadcast_tooffsets", r"toRegularArray", r"getitem_nextcarry", r"simplify",
+                           r"toIndexedOptionArray", r"BitMaskedArray_to", r"Index\w*_to_Index64", r"contiguous", r"index_carry",
+                           r"Index\w*_carry", r"ListArray\w*_num_", r"RegularArray_num", r"iscontiguous"],
+               "kinds": ["SIG", "S", "E", "F"], "trusted": KERNEL_TRUST}
+PLAN["C03"] = {"kernels": [r"reduce", r"zeroparents", r"index_of_nulls"],
+               "kinds": ["S", "E", "F"], "trusted": KERNEL_TRUST}
+PLAN["C04"] = {"kernels": [r"broadcast_tooffsets", r"compact_offsets"],
+               "kinds": ["S", "E", "F"], "trusted": KERNEL_TRUST}
+PLAN["C05"] = {"kernels": [r"_num_", r"RegularArray_num", r"flatten", r"localindex", r"none2empty"],
+               "kinds": ["S", "E", "F"], "trusted": KERNEL_TRUST}
+PLAN["C08"] = {"kernels": [r"_fill", r"simplify", r"UnionArray\w*_project", r"regular_index", r"nestedfill"],
+               "kinds": ["S", "E", "F"], "trusted": KERNEL_TRUST}
+PLAN["C09"] = {"kernels": [r"rpad", r"min_range", r"fillna", r"numnull", r"mask8", r"overlay_mask", r"zero_mask", r"one_mask",
+                           r"nones_as_index", r"BitMaskedArray_to", r"toIndexedOptionArray", r"ByteMaskedArray_mask", r"IndexedArray\w*_mask"],
+               "kinds": ["S", "E", "F"], "trusted": KERNEL_TRUST}
+PLAN["C11"] = {"kernels": [r"validity", r"rpad_length_axis1", r"ListOffsetArray\w*_compact_offsets", r"getitem_nextcarry", r"ListArray\w*_getitem_carry"], "kinds": ["S", "E", "F"], "trusted": KERNEL_TRUST}
+PLAN["C12"] = {"kernels": ALL, "functions": ["awkward_regularize_rangeslice"], "kinds": ["S", "F"], "trusted": KERNEL_TRUST}
+
+
 def _forth_engine(pid, tier, seed, known):
     from . import forth
     return forth.engine(pid, tier, seed, known)
